@@ -189,7 +189,7 @@ Step(e) ==
       [] e.ev = "quiescent" ->
             IF closed THEN Flag({"C16", "C09"}, "closed_channel_not_finished")
             ELSE IF Unadopted THEN Flag({"C09", "C10"}, "quiescent_unadopted_registration")
-            ELSE IF ~RejectedComplete THEN Flag({"C10", "C09"}, "quiescent_rejected_replier_not_told_and_closed")
+            ELSE IF ~RejectedComplete THEN Flag({"C10", "C09", "C11"}, "quiescent_rejected_replier_not_told_and_closed")
             ELSE IF UnobservedReplierEnd THEN Flag({"C09", "C10"}, "quiescent_replier_end_unobserved")
             ELSE IF UnyieldedReplies THEN Flag({"C09", "C02"}, "quiescent_unyielded_reply")
             ELSE IF ~RepliesComplete THEN Flag({"C02", "C09"}, "quiescent_reply_undelivered")
